@@ -186,6 +186,10 @@ theorem mem_loopPorts {sw : Sw} {inPort : Nat} {flood : Bool} {no : Nat} (h : no
   · intro e; simp [e] at hc
   · intro hf; subst hf; simp at hc; exact hc.2
 
+theorem packetInOf_ne_frame' (a b : Nat) (d : Bytes) (n : Option Nat) (p : Nat) (x : Bytes) :
+    packetInOf a b d n ≠ Out.frame p x := by
+  cases n <;> simp [packetInOf]
+
 /-- a table continuation keeps the contract -/
 def TableSound (table : TableK) : Prop :=
   ∀ sw f inPort sw' f' outs, table sw f inPort = .ok (sw', f', outs) → Sound sw sw' outs
@@ -214,7 +218,8 @@ theorem outputPacket_sound (table : TableK) (ht : TableSound table) (sw : Sw) (f
             | ok b =>
               simp only [hp, Except.ok.injEq, Prod.mk.injEq] at h
               obtain ⟨rfl, rfl, rfl⟩ := h
-              exact Sound.of_noFrames _ _ (by intro p b' hm; cases ml <;> simp [packetInOf] at hm)
+              exact Sound.of_noFrames _ _ (by
+                intro p b' hm; simp only [List.mem_singleton] at hm; exact packetInOf_ne_frame' _ _ _ _ _ _ hm.symm)
           · split at h
             · exact ht _ _ _ _ _ _ h
             · cases h; exact Sound.nil sw
@@ -270,6 +275,32 @@ theorem applyWith_sound (var : Variant) (table : TableK) (ht : TableSound table)
       · cases h
       · exact ih _ _ _ _ _ _ h
 
+theorem packetInOf_ne_frame (a b : Nat) (d : Bytes) (n : Option Nat) (p : Nat) (x : Bytes) :
+    packetInOf a b d n ≠ Out.frame p x := by
+  cases n <;> simp [packetInOf]
+
+theorem missOuts_noFrames {sw : Sw} {f : Frame} {inPort : Nat} {pd : Option Bytes} {o : List Out}
+    (h : Actions.missOuts sw f inPort pd = .ok o) : noFrames o := by
+  intro p b hmem
+  simp only [Actions.missOuts] at h
+  by_cases hn : noPin sw inPort = true
+  · simp only [hn, if_true, Except.ok.injEq] at h; subst h; simp at hmem
+  · simp only [hn, Bool.false_eq_true, if_false] at h
+    cases pd with
+    | some d =>
+      simp only [Except.ok.injEq] at h
+      subst h
+      simp only [List.mem_singleton] at hmem
+      exact packetInOf_ne_frame _ _ _ _ _ _ hmem.symm
+    | none =>
+      cases hp : packFrame f with
+      | error e => simp [hp] at h
+      | ok d =>
+        simp only [hp, Except.ok.injEq] at h
+        subst h
+        simp only [List.mem_singleton] at hmem
+        exact packetInOf_ne_frame _ _ _ _ _ _ hmem.symm
+
 theorem lookupPacket_sound (apply : Sw → List Action → Frame → Nat → M (Sw × Frame × List Out))
     (ha : ∀ sw acts f inPort sw' f' outs, apply sw acts f inPort = .ok (sw', f', outs) → Sound sw sw' outs)
     (sw : Sw) (f : Frame) (inPort : Nat) (pd : Option Bytes) (sw' : Sw) (f' : Frame) (outs : List Out)
@@ -277,21 +308,12 @@ theorem lookupPacket_sound (apply : Sw → List Action → Frame → Nat → M (
   unfold lookupPacket at h
   split at h
   · exact ha _ _ _ _ _ _ _ h
-  · cases hm : missOuts sw f inPort pd with
+  · cases hm : Actions.missOuts sw f inPort pd with
     | error e => simp [hm] at h
     | ok o =>
       simp only [hm, Except.ok.injEq, Prod.mk.injEq] at h
       obtain ⟨rfl, rfl, rfl⟩ := h
-      apply Sound.of_noFrames
-      intro p b hmem
-      unfold Actions.missOuts at hm
-      split at hm
-      · cases hm; simp at hmem
-      · split at hm
-        · cases hm; simp [packetInOf] at hmem; split at hmem <;> simp at hmem
-        · split at hm
-          · cases hm; simp [packetInOf] at hmem; split at hmem <;> simp at hmem
-          · cases hm
+      exact Sound.of_noFrames _ _ (missOuts_noFrames hm)
 
 /-- the repaired action loop (`output:TABLE` → `_lookup_packet`) keeps the contract at every nesting depth -/
 theorem run_sound (var : Variant) (hv : var.d8 = false) : ∀ (fuel : Nat) (sw : Sw) (acts : List Action) (f : Frame)
